@@ -11,9 +11,10 @@ from . import core, tlc, poolcore
 KINDS = {
     'C01': {'dirty_handoff_tx', 'session_shared', 'transaction_split', 'misattributed_result', 'double_checkout',
             'checkout_of_closed'},
-    'C02': {'dirty_handoff', 'dirty_handoff_tx', 'unclean_reuse'},
+    # a reply left unread for the next client shows as a result delivered to the wrong client
+    'C02': {'dirty_handoff', 'dirty_handoff_tx', 'unclean_reuse', 'misattributed_result'},
     'C04': {'too_many_connections', 'leak_at_quiescence', 'no_checkout_error', 'waiter_not_served', 'waiter_refused', 'client_tasks_still_alive',
-            'capacity_lost', 'backend_sessions_exceed'},
+            'capacity_lost', 'backend_sessions_exceed', 'idle_client_holds_server'},
     'C10': {'cancel_wrong_target', 'map_entry_after_exit', 'cancel_misdirected',
             'cancel_without_session', 'cancel_lost', 'cancel_not_sent'},
 }
@@ -25,7 +26,7 @@ GEN_CFGS = {
 }
 
 
-def gen_cfg_text(mode, pool_size, depth, clients=('A', 'B'), actors=('A',), maxmsgs=3, probes_last=False):
+def gen_cfg_text(mode, pool_size, depth, clients=('A', 'B'), actors=('A',), maxmsgs=3, probes_last=False, extras=()):
     def setof(xs):
         return '{' + ', '.join('"%s"' % x for x in xs) + '}'
     return '''SPECIFICATION GSpec
@@ -41,15 +42,16 @@ CONSTANTS
   MaxMsgs = %d
   Depth = %d
   ProbesLast = %s
+  Extras = %s
 INVARIANT Emit
 ''' % (setof(clients), setof(actors), setof([c for c in clients if c not in actors]), pool_size,
-       'TRUE' if mode == 'transaction' else 'FALSE', maxmsgs, depth, 'TRUE' if probes_last else 'FALSE')
+       'TRUE' if mode == 'transaction' else 'FALSE', maxmsgs, depth, 'TRUE' if probes_last else 'FALSE', setof(extras))
 
 
-def generate(v, name, mode, pool_size, depth, clients=('A', 'B'), actors=('A',), maxmsgs=3, probes_last=False):
+def generate(v, name, mode, pool_size, depth, clients=('A', 'B'), actors=('A',), maxmsgs=3, probes_last=False, extras=()):
     cfg = 'Gen_PoolCore_%s_d%d.cfg' % (name, depth)
     with open(os.path.join(tlc.SPEC, cfg), 'w') as f:
-        f.write(gen_cfg_text(mode, pool_size, depth, clients, actors, maxmsgs, probes_last))
+        f.write(gen_cfg_text(mode, pool_size, depth, clients, actors, maxmsgs, probes_last, extras))
     res = tlc.run_tlc('Gen_PoolCore', cfg, workers=8, timeout=1500)
     if res.rc != 0:
         v.tool_error('Gen_PoolCore %s failed rc=%d: %s' % (cfg, res.rc, '; '.join(res.errors()[:3]) or res.out[-400:]))
@@ -80,7 +82,10 @@ def features(sc):
             f.add('A:' + k)
         if op == 'send' and c != 'A' and actor_sent:
             f.add('handoff')
-        if op in ('exit_in_tx', 'early_return', 'idle_tx_timeout', 'checkout_timeout', 'cancel', 'leave'):
+        if op == 'send_vanish':
+            actor_sent = True
+            f.add('vanish:' + k)
+        if op in ('exit_in_tx', 'early_return', 'idle_tx_timeout', 'checkout_timeout', 'cancel', 'leave', 'reap', 'vanish'):
             f.add(op)
     return f
 
@@ -126,6 +131,8 @@ def last_op_of(steps, client):
             continue
         if s['op'] == 'send':
             last = 'send:' + s['k']
+        elif s['op'] == 'send_vanish':
+            last = 'vanish:' + s['k']
         else:
             last = s['op']
     return last
@@ -135,7 +142,9 @@ def run_model_checks(v, prop, tier):
     runs = [('design', 'MC_PoolCore_design.cfg', True), ('asbuilt', 'MC_PoolCore_asbuilt.cfg', False),
             ('dev:reset_before_rollback', 'MC_PoolCore_dev_reset_before_rollback.cfg', False),
             ('dev:timeout_keeps_connection', 'MC_PoolCore_dev_timeout_keeps_connection.cfg', False),
-            ('dev:error_keeps_copy_mode', 'MC_PoolCore_dev_error_keeps_copy_mode.cfg', False)]
+            ('dev:error_keeps_copy_mode', 'MC_PoolCore_dev_error_keeps_copy_mode.cfg', False),
+            ('dev:timeout_marks_bad_after_write', 'MC_PoolCore_dev_timeout_marks_bad_after_write.cfg', False),
+            ('dev:local_batch_keeps_server', 'MC_PoolCore_dev_local_batch_keeps_server.cfg', False)]
     if tier == 'thorough':
         runs.insert(1, ('design_3c', 'MC_PoolCore_design3.cfg', True))
         runs.insert(2, ('design_session', 'MC_PoolCore_session.cfg', True))
@@ -230,15 +239,22 @@ def check(prop, tier, seed):
     # hand-off families: the probe runs after the actor has gone; longer actor programs
     scenarios += generate(v, 'tx1h', 'transaction', 1, depth + 1, maxmsgs=4, probes_last=True)
     scenarios += generate(v, 'sess1h', 'session', 1, depth, maxmsgs=3, probes_last=True)
+    # histories with clients whose socket is reset while a message is in flight, and with the pool's reaper
+    scenarios += generate(v, 'tx1v', 'transaction', 1, depth - 1, probes_last=True, extras=('vanish',))
+    if prop in ('C02', 'C04'):
+        scenarios += generate(v, 'tx1r', 'transaction', 1, depth - 2, extras=('reap',))
     if prop in ('C01', 'C04', 'C10'):
         scenarios += generate(v, 'sess1', 'session', 1, depth - 1)
     if prop in ('C04', 'C01') or tier == 'thorough':
         scenarios += generate(v, 'tx2', 'transaction', 2, depth - 1)
     want = {
-        'C01': {'handoff', 'A:begin', 'A:copyin', 'A:copyin2', 'A:fail', 'A:slow', 'early_return', 'exit_in_tx', 'idle_tx_timeout'},
+        'C01': {'handoff', 'A:local', 'A:begin', 'A:copyin', 'A:copyin2', 'A:fail', 'A:slow', 'early_return', 'exit_in_tx', 'idle_tx_timeout',
+                'vanish:slow', 'vanish:begin', 'vanish:stmt', 'vanish:big'},
         'C02': {'handoff', 'A:set', 'A:prep', 'A:begin', 'A:fail', 'A:copyin', 'A:copyin2', 'A:slow', 'early_return', 'exit_in_tx',
-                'idle_tx_timeout', 'A:big'},
-        'C04': {'checkout_timeout', 'early_return', 'exit_in_tx', 'handoff', 'idle_tx_timeout', 'leave'},
+                'idle_tx_timeout', 'A:big', 'vanish:slow', 'vanish:begin', 'vanish:set', 'vanish:stmt', 'vanish:big', 'vanish:commit',
+                'reap'},
+        'C04': {'checkout_timeout', 'early_return', 'exit_in_tx', 'handoff', 'idle_tx_timeout', 'leave', 'reap', 'vanish', 'A:local',
+                'vanish:slow', 'vanish:begin', 'vanish:stmt'},
         'C10': {'cancel'},
     }[prop]
     n = {'quick': 400, 'thorough': 6000}[tier]
